@@ -181,9 +181,17 @@ def rh(tier):
         St(Sc("i8"), Arr(STR, (2, 2, 2), (1, 2, 0))),
         St(STR, A_DS, S_D1),
         Arr(Arr(STR, (2, 1, 2), (2, 0, 1)), (2,)),
+        # union references held by value inside compounds that are updated as a whole; large strides / many items (index arithmetic)
+        St(Sc("i64"), St(Sc("f64"), Sc("i64"), URef(S_S, S_D2))),
+        St(Arr(St(Sc("f64"), URef(S_S, S_D2)), (3,)), Sc("i64")),
+        Arr(Arr(Sc("f64"), (3, 3), (0, 1)), (None,)),
+        St(Arr(Sc("f64"), (None, 3), (0, 1)), Sc("i16")),
     ]
     if tier == "thorough":
         ts += [
+            Arr(St(Sc("i16"), URef(S_S, S_D2)), (None,)),
+            St(STR, St(Sc("f64"), URef(S_D2, S_S)), Sc("i8")),
+            Arr(Sc("f64"), (2, 3, 6), (0, 1, 2)),
             Arr(S_D2, (2,)),
             Arr(A_SD, (None,)),
             Arr(Sc("f32"), (None, None), (1, 0)),
